@@ -322,6 +322,9 @@ def main(tier, seed):
     WIDE = [float("-inf"), -FLOAT_MAX, -1e300, -1.5, -5e-324, -0.0, 0.0, 5e-324, 2.5, 1e300, FLOAT_MAX, float("inf")]
     for i in range(80 if tier == "quick" else 3000):
         cases.append(("valid",) + gen_valid_live(rng, max_size=8, max_len=40, alphabet_override=sorted(set(rng.sample(WIDE, rng.randint(2, 6))))))
+    # signed whole-number costs with exact zeros among them (costs need not be non-negative)
+    for i in range(80 if tier == "quick" else 3000):
+        cases.append(("valid",) + gen_valid_live(rng, max_size=8, max_len=40, alphabet_override=sorted(set(float(rng.randint(-4, 4)) for _ in range(rng.randint(2, 6))) | {0.0})))
     exh = 0
     if tier == "thorough":
         for pol in ("min", "max"):
